@@ -25,7 +25,7 @@ PAYLOADS = ('internal', 'nested', 'parameter', 'external_file', 'external_http',
             'unused', 'attr_only', 'benign_empty_subset', 'benign_element_decl', 'benign_none')
 BENIGN = ('benign_empty_subset', 'benign_element_decl', 'benign_none')
 PROLOGS = ('plain', 'bom8', 'utf16', 'latin1', 'pad9k', 'pad17k', 'pad66k', 'subsetpad66k')
-ROLES = ('instance', 'instance_lazy', 'validate', 'main_schema', 'included', 'imported', 'redefined')
+ROLES = ('instance', 'instance_lazy', 'validate', 'main_schema', 'included', 'imported', 'redefined', 'hinted')
 
 # channel catalogue: (name, kind, seekable, url attribute, base_url class)
 CHANNELS = []
@@ -115,7 +115,8 @@ class C13(Check):
     GROUP = 16
     RULE = ("case = (defuse mode, channel [stream class x seekable x url attribute | text/bytes x base_url class | "
             "path | file URL | http via installed opener | http via opener=], role [instance, lazy instance, instance "
-            "through a schema's settings, main schema, included schema, imported schema], payload [9 entity/DTD "
+            "through a schema's settings, main schema, included / imported / redefined schema (part on the same or the other "
+            "side local/remote), schema reached through an instance hint], payload [9 entity/DTD "
             "payloads + 3 benign], prolog variant [BOM, UTF-16, latin-1, prolog padded past 8/16/64 KiB, internal "
             "subset padded past 64 KiB], delivery plan incl. cuts inside '<!ENTITY', peer behaviour [constant | "
             "re-serve payload-then-benign | benign-then-payload]). Every (payload, channel) pair is enumerated at "
@@ -157,12 +158,14 @@ class C13(Check):
             prolog = 'plain'
         if role in ('included', 'imported', 'redefined'):
             chan = rng.choice([x for x in CHANNELS if x[0] in ('path', 'fileurl', 'http', 'http_opener')])
+        if role == 'hinted':
+            chan = rng.choice([x for x in CHANNELS if x[0] in ('path', 'fileurl', 'http')])
         peer = 'constant'
         if chan[1] in ('http', 'http_opener') and rng.random() < 0.5:
             peer = rng.choice(['payload_then_benign', 'benign_then_payload'])
         case = {'mode': mode, 'chan': chan[0], 'role': role, 'payload': payload, 'prolog': prolog, 'peer': peer,
                 'pseed': rng.randrange(1 << 30)}
-        if role in ('included', 'imported', 'redefined') and rng.random() < 0.4:
+        if role in ('included', 'imported', 'redefined', 'hinted') and rng.random() < 0.4:
             case['part_locality'] = 'remote' if chan[1] in ('path', 'fileurl') else 'local'
         if chan[1] in ('raw', 'buffered', 'textio', 'duck') and role in ('instance', 'instance_lazy', 'validate') \
                 and rng.random() < 0.15:
@@ -211,7 +214,7 @@ class C13(Check):
                 fp.write(f'<!ENTITY x "{MARK}">\n')
             urls = ('file://' + os.path.join(world, 'secret.txt'), 'http://sim.test/secret.txt',
                     'file://' + os.path.join(world, 'ext.dtd'))
-            is_schema = role in ('main_schema', 'included', 'imported', 'redefined')
+            is_schema = role in ('main_schema', 'included', 'imported', 'redefined', 'hinted')
             tns = 'urn:imp' if role == 'imported' else None
             doc = build_doc(payload, prolog, is_schema, urls, tns)
             benign = build_doc('benign_none', 'plain', is_schema, urls, tns)
@@ -261,6 +264,10 @@ class C13(Check):
                 # S1: refused with the forbidden-resource error
                 elif case['peer'] != 'constant':
                     counters['reserve_outcome_' + (got['exc'] or 'parsed')] = 1   # which body was parsed is the peer's choice
+                elif role == 'hinted' and got['exc'] == 'XMLSchemaValueError' and 'cannot get a schema' in (got['msg'] or ''):
+                    # the probe of the hint was refused and the hint skipped: the statement's roles do not include a
+                    # schema reached through a hint, so HOW the refusal surfaces is not judged; S2-S4 are
+                    counters['hinted_refusal_surfaced_as_no_schema'] = 1
                 elif got['exc'] != 'XMLResourceForbidden' and not self.excused(case, chan, got):
                     violations.append({'signature': dict(sigbase, clause='not-refused', payload=payload,
                                                          outcome=got['exc'] or 'parsed'),
@@ -305,7 +312,8 @@ class C13(Check):
         name, kind, seekable, urlattr, base = chan
         if (kind in ('http', 'http_opener') or case.get('part_locality') == 'remote') and \
                 case['prolog'] in ('pad66k', 'subsetpad66k') and \
-                got['exc'] in ('XMLResourceOSError', 'XMLResourceError', 'part-not-loaded'):
+                (got['exc'] in ('XMLResourceOSError', 'XMLResourceError', 'part-not-loaded') or
+                 (case['role'] == 'hinted' and got['exc'] == 'XMLSchemaValueError')):
             return True      # a peer response is a non-seekable buffered stream: same 64 KiB limit
         if got['exc'] not in ('XMLResourceOSError', 'XMLResourceError'):
             return False
@@ -393,6 +401,28 @@ class C13(Check):
                 src = source_for(doc, 'main.xsd', 'http://sim.test/main.xsd')
                 schema = xmlschema.XMLSchema(src, base_url=base_url, defuse=mode, opener=opener)
                 trees += [s.root for s in schema.maps.iter_schemas() if s.meta_schema is not None]
+            elif role == 'hinted':
+                # a benign INSTANCE whose xsi:noNamespaceSchemaLocation names the payload schema document: the
+                # package-level API builds the schema from the hint with the same defuse argument
+                part_ref = 'part.xsd'
+                if part_locality == 'remote':
+                    peer.pages['http://sim.test/other/part.xsd'] = bodies
+                    peer.plans['http://sim.test/other/part.xsd'] = plan
+                    part_ref = 'http://sim.test/other/part.xsd'
+                elif part_locality == 'local':
+                    with open(os.path.join(world, 'part.xsd'), 'wb') as fp:
+                        fp.write(doc)
+                    part_ref = 'file://' + os.path.join(world, 'part.xsd')
+                else:
+                    source_for(doc, 'part.xsd', 'http://sim.test/part.xsd')
+                inst = f'<incel xmlns:xsi="{XSI}" xsi:noNamespaceSchemaLocation="{part_ref}">x</incel>'
+                src = source_for(inst.encode(), 'inst.xml', 'http://sim.test/inst.xml')
+                from xmlschema.documents import get_context
+                res, schema = get_context(src, defuse=mode)
+                trees.append(res.root)
+                trees += [s.root for s in schema.maps.iter_schemas() if s.meta_schema is not None]
+                if not any((s.url or '').endswith('part.xsd') for s in schema.maps.iter_schemas()):
+                    out['exc'] = 'part-not-loaded'
             else:
                 # benign main document that includes / imports the payload document
                 if role in ('included', 'redefined'):
